@@ -149,6 +149,12 @@ def check_circuit(recipe, env, maxph, acc):
                         e = [e] if isinstance(e, lw.State) else e
                         good = sum(want[a, outs.index(t)] for t in {tuple(x.s) for x in e} if t in outs)
                         errs.append(1 - good / want[a].sum())
+                    if rr.array.shape != want.shape or np.abs(rr.array - want).max() > tol \
+                            or abs(rr.performance - perf) > tol * len(outs):
+                        acc.violation("analyzer_vs_sampler", {**case, "expected": elabel, "with_expected": True},
+                                      {"max_err": float(np.abs(rr.array - want).max()) if rr.array.shape == want.shape else None,
+                                       "performance": rr.performance, "ref_performance": perf})
+                        break
                     if abs(rr.error_rate - float(np.mean(errs))) > 1e-7:
                         acc.violation("analyzer_error_rate", {**case, "expected": elabel},
                                       {"impl": rr.error_rate, "ref": float(np.mean(errs))})
